@@ -27,8 +27,9 @@ Lemma annotation_is i w c r : is_ c r = true -> is_ (Wrap i w c) r = true.
 Proof. intro H; cbn [is_]. rewrite H. now rewrite orb_true_r. Qed.
 
 Lemma annotation_as i w c t n :
+  annotation w = true ->
   as_ c t = Some n -> assignable (Wrap i w c) t = false -> as_ (Wrap i w c) t = Some n.
-Proof. intros H Ha. cbn [as_]. now rewrite Ha. Qed.
+Proof. intros Hw H Ha. destruct w; try discriminate; cbn [as_ as_method]; rewrite Ha; exact H. Qed.
 
 (* ---- message wrappers ---- *)
 (* what fmt's %v prints for the cause: its Format method when it has one (the
